@@ -85,6 +85,10 @@ fn collect<V: Fv>(ctx: &Ctx, total: usize, rep: &mut Report) -> Vec<SaltRec> {
         rep.inconclusive("keygen failed".into());
         return vec![];
     }
+    if !crate::signer::canary::<V>(&keys[0].sk) {
+        rep.inconclusive("sign does not terminate or panics on a fresh key (reported by C01); no salt history can be recorded".into());
+        return vec![];
+    }
     let keys = Arc::new(keys);
     let threads = 16;
     let per = total / threads;
